@@ -105,6 +105,7 @@ func c14World(rc *kernel.RunCtx) {
 	maxSteps := rc.Param("max_steps", 1500)
 	k := kernel.New(t, kernel.M1, 1<<30)
 	kernel.Active = k
+	defer lockAware(k)()
 	kn := drawKnobs(t, rc.Run)
 	kn.OwnBuf = false
 	kn.BufSize = blockBufSize(rc.Run, []int{16, 16, 64, 64, 512, 4096})
@@ -185,6 +186,20 @@ func c14World(rc *kernel.RunCtx) {
 		return
 	}
 	bareDoc := []byte(bareBuf.String())
+	if dev && t.Chance(1, 3, "devmode-disk-fault-before-tasks") {
+		// earlier in the life of the process the text files were unreachable for a while and a
+		// render failed for it; the files are back when the concurrent renders start
+		aside := devModeRoot + ".aside"
+		if err := os.Rename(devModeRoot, aside); err == nil {
+			if o := renderOnce(u, specs[0], kn, Fault{}, -1, -1, false, nil, nil); o.err != nil {
+				k.Count("fault_devmode_render_failed_while_text_files_unreachable", 1)
+			}
+			if err := os.Rename(aside, devModeRoot); err != nil {
+				rc.Fail("harness", "%v", err)
+			}
+			k.Count("fault_devmode_text_files_unreachable", 1)
+		}
+	}
 	if dev {
 		coldDevCache()
 	}
@@ -251,6 +266,12 @@ func c14World(rc *kernel.RunCtx) {
 		k.Quiesce()
 		ps := k.ParkedList()
 		if len(ps) == 0 {
+			if n := k.Blocked(); n > 0 {
+				// nothing runs, nothing is held by the scheduler, and tasks wait for a lock of the
+				// code under test: only one of themselves could release it
+				rc.Fail("C14/deadlock", "%d render(s) wait forever for a lock in the code under test while no other render is running or held at a seam", n)
+				rc.Res.Restart = true
+			}
 			break
 		}
 		runaway := false
